@@ -546,6 +546,32 @@ Proof.
   - destruct (IH f _ St R H) as [A B]. split; [|exact B]. eapply incl_tran; [apply add_new_incl|exact A].
 Qed.
 
+Lemma In_ldedup : forall (L : leaves) x, In x L -> In x (ldedup L).
+Proof.
+  induction L as [|y L IH]; cbn; intros x Hx; [contradiction|].
+  destruct (existsb (leaf_eqb y) L) eqn:E.
+  - destruct Hx as [Hx|Hx]; [|auto]. subst y. apply existsb_exists in E. destruct E as [z [Hz Hq]].
+    unfold leaf_eqb in Hq. apply andb_true_iff in Hq. destruct Hq as [Q1 Q2].
+    apply astate_eqb_eq in Q1. apply eqb_prop in Q2. destruct x as [xa xr], z as [za zr]. cbn in *. subst. auto.
+  - destruct Hx as [Hx|Hx]; [left; exact Hx|right; auto].
+Qed.
+
+Lemma explore_incl : forall fuel f seen front St, explore fuel f seen front = Some St -> incl seen St.
+Proof.
+  induction fuel as [|fuel IH]; cbn; intros f seen front St H; [discriminate|].
+  destruct front as [|a0 front].
+  - inversion H; subst. apply incl_refl.
+  - destruct (star_round f (a0 :: front)) as [[N R]|]; [|discriminate].
+    apply IH in H. eapply incl_tran; [|exact H]. apply incl_appl. apply incl_refl.
+Qed.
+
+Lemma sound_dedup : forall (X : option leaves) L (Q : astate * bool -> Prop),
+  option_map ldedup X = Some L -> (forall L0, X = Some L0 -> exists x, In x L0 /\ Q x) -> exists x, In x L /\ Q x.
+Proof.
+  intros X L Q H HX. destruct X as [L0|]; [|discriminate]. cbn in H. inversion H; subst L.
+  destruct (HX L0 eq_refl) as [x [A B]]. exists x. split; [apply In_ldedup; exact A|exact B].
+Qed.
+
 (* ------------------------------------------------------------------ main theorem *)
 Definition ok_oracle (canfail : bool) (o : oracle) : Prop := canfail = false -> forall k, fails o k = false.
 
@@ -584,7 +610,16 @@ Ltac inv_some := match goal with H : Some _ = Some _ |- _ => inversion H; subst;
 Theorem aexec_sound : forall fuel canfail o, ok_oracle canfail o ->
   forall p, sound (aexec fuel canfail p) (run o p).
 Proof.
-  intros fuel canfail o Ho. unfold sound. induction p; intros a L s HA HG; cbn [aexec run] in *.
+  intros fuel canfail o Ho. unfold sound. induction p; intros a L s HA HG;
+    (match goal with |- exists a', In (a', snd ?R) L /\ G a' (fst ?R) =>
+       cut (exists x, In x L /\ (snd x = snd R /\ G (fst x) (fst R)));
+       [ intros [[xa xr] [Hx1 [Hx2 Hx3]]]; cbn in Hx2, Hx3; subst xr; exists xa; split; assumption | ];
+       cbn [aexec] in HA;
+       apply (sound_dedup _ L (fun x => snd x = snd R /\ G (fst x) (fst R)) HA); clear HA L; intros L HA;
+       cut (exists a', In (a', snd R) L /\ G a' (fst R));
+       [ intros [a' [Hy1 Hy2]]; exists (a', snd R); split; [exact Hy1|split; [reflexivity|exact Hy2]] | ]
+     end);
+    cbn [run] in *.
   - (* Skip *) inv_some. exists a. split; [left; reflexivity|exact HG].
   - (* Seq *)
     destruct (aexec fuel canfail p1 a) as [L1|] eqn:E1; [|discriminate].
@@ -701,9 +736,10 @@ Proof.
     inv_some. eexists. split; [left; reflexivity|].
     destruct HG as [H1 H2 H3 H4 H5 H6 H7 H8 H9 H10 H11 H12 H13]. constructor; simp_acc; try assumption; reflexivity.
   - (* Star *)
-    destruct (star_fix fuel (aexec fuel canfail p) [a]) as [[St R]|] eqn:E1; [|discriminate]. inv_some.
+    destruct (explore fuel (aexec fuel canfail p) [a] [a]) as [St0|] eqn:E0; [|discriminate].
+    destruct (star_fix 1 (aexec fuel canfail p) St0) as [[St R]|] eqn:E1; [|discriminate]. inv_some.
     destruct (star_fix_spec _ _ _ _ _ E1) as [Hin Hc].
-    assert (Ha : In a St) by (apply Hin; left; reflexivity).
+    assert (Ha : In a St) by (apply Hin; apply (explore_incl _ _ _ _ _ E0); left; reflexivity).
     pose proof (G_upd_nstar a s (S (nstar s)) HG) as HG'.
     destruct (iter_sound (aexec fuel canfail p) (run o p) St R IHp Hc (reps o (nstar s)) a _ Ha HG') as [a1 [A B]].
     exists a1. split; [|exact A].
